@@ -34,6 +34,14 @@ func findLinkWalks(fn *ssa.Function, linkFields map[string]bool) []LinkWalk {
 				if !b.Dominates(pred) {
 					continue // not a back edge
 				}
+				// key-carried form: the loop variable is the key; on the back edge it becomes the link field of the
+				// element that was looked up under the current key
+				if fld, base := fieldLoad(e); fld != nil && linkFields[fld.Name()] {
+					if lk := lookupFeeding(base, 6); lk != nil && stripConv(lk.Index) == ssa.Value(phi) {
+						out = append(out, LinkWalk{Fn: fn, Header: b, Phi: phi, Lookup: lk, Map: termOf(lk.X), Link: fld.Name()})
+						continue
+					}
+				}
 				// e derives from a Lookup (directly, or through Extract of a comma-ok lookup)
 				lk := lookupOf(e)
 				if lk == nil {
@@ -62,6 +70,27 @@ func findLinkWalks(fn *ssa.Function, linkFields map[string]bool) []LinkWalk {
 		}
 	}
 	return ded
+}
+
+// lookupFeeding: the map lookup a (possibly extracted / loaded) element value comes from.
+func lookupFeeding(v ssa.Value, depth int) *ssa.Lookup {
+	for d := 0; d < depth && v != nil; d++ {
+		switch x := v.(type) {
+		case *ssa.Lookup:
+			return x
+		case *ssa.Extract:
+			v = x.Tuple
+		case *ssa.UnOp:
+			v = x.X
+		case *ssa.FieldAddr:
+			v = x.X
+		case *ssa.Field:
+			v = x.X
+		default:
+			return nil
+		}
+	}
+	return nil
 }
 
 func lookupOf(v ssa.Value) *ssa.Lookup {
